@@ -28,7 +28,7 @@ def one(i):
         if os.path.exists(src + '/' + f):
             shutil.copy(src + '/' + f, dst + '/' + f)
     note = open(src + '/note.md').read().strip().splitlines()[:12] if os.path.exists(src + '/note.md') else []
-    meta = {'property': prop, 'round': 3 if '-n' in i else 2, 'breaks': note,
+    meta = {'property': prop, 'round': 4 if '-p' in i else (3 if '-n' in i else 2), 'breaks': note,
             'source': 'independent sub-agent given only the property text and its own scratch worktree (later round, after the checks were hardened)',
             'rebased': None,
             'validated_by_me': {'how': 'tools/seedtest.py in a scratch worktree of /repo HEAD: demo on clean tree, git apply, demo on changed tree, py_compile, '
